@@ -398,6 +398,25 @@ func jsonExtra(tt *TermTable, key string, s *Term) *Term {
 	})
 }
 
+// jsonStringValid / jsonStringDec: decoding a JSON text as a string; the encoding of a string decodes to it.
+func jsonStringValid(tt *TermTable, s *Term) *Term {
+	return liftIte(tt, s, func(s *Term) *Term {
+		if s.op == "uf:jenc_string" {
+			return tt.Bool(true)
+		}
+		return tt.UF("jvalid_string", SBool, s)
+	})
+}
+
+func jsonStringDec(tt *TermTable, s *Term) *Term {
+	return liftIte(tt, s, func(s *Term) *Term {
+		if s.op == "uf:jenc_string" {
+			return s.args[0]
+		}
+		return tt.UF("jdec_string", SString, s)
+	})
+}
+
 func (ex *Exec) jsonUnmarshalOpt(data *BytesV, dst *IfaceV, strict bool) Value {
 	tt := ex.tt
 	ex.H.noteStub("encoding/json.Unmarshal(contract)")
@@ -484,14 +503,14 @@ func (ex *Exec) jsonUnmarshalOpt(data *BytesV, dst *IfaceV, strict bool) Value {
 		}
 		if b, isBasic := st.Underlying().(*types.Basic); isBasic && b.Info()&types.IsString != 0 {
 			// *string destination (**string): null -> nil
-			if !ex.branch(tt.UF("jvalid_string", SBool, s), "json-valid-string") {
+			if !ex.branch(jsonStringValid(tt, s), "json-valid-string") {
 				return ex.opaqueErr("json: cannot unmarshal into string")
 			}
 			if ex.branch(tt.Eq(s, tt.Str("null")), "json-null-string") {
 				ex.store(p, &PtrV{typ: et})
 				return nilErr()
 			}
-			ex.store(p, &PtrV{obj: ex.newObj(tt.UF("jdec_string", SString, s), st), typ: et})
+			ex.store(p, &PtrV{obj: ex.newObj(jsonStringDec(tt, s), st), typ: et})
 			return nilErr()
 		}
 	case *types.Struct:
@@ -509,10 +528,19 @@ func (ex *Exec) jsonUnmarshalOpt(data *BytesV, dst *IfaceV, strict bool) Value {
 		}
 	case *types.Basic:
 		if u.Info()&types.IsString != 0 {
-			if !ex.branch(tt.UF("jvalid_string", SBool, s), "json-valid-string") {
+			if cs, ok := s.StrVal(); ok {
+				// concrete text: decode it for real
+				var out string
+				if err := json.Unmarshal([]byte(cs), &out); err != nil {
+					return ex.opaqueErr("json: cannot unmarshal into string")
+				}
+				ex.store(p, tt.Str(out))
+				return nilErr()
+			}
+			if !ex.branch(jsonStringValid(tt, s), "json-valid-string") {
 				return ex.opaqueErr("json: cannot unmarshal into string")
 			}
-			ex.store(p, tt.UF("jdec_string", SString, s))
+			ex.store(p, jsonStringDec(tt, s))
 			return nilErr()
 		}
 	}
